@@ -207,6 +207,12 @@ def c06(run):
                     for ok in (True, False):
                         for _ in range(1 if quick else 6):
                             hs.append([dict(c) for c in state] + [{"op": "dii", "c": 7, "sz": sz, "pre": pre, "ok": ok}])
+        # every spelling of a wrong checksum (one flipped digit, a truncated digest, non-ASCII characters) is just "wrong"
+        for bad in ("nonascii", "short", "accent"):
+            hs.append([dict(c) for c in state] + [{"op": "so", "p": 1, "b": 7, "n": 1, "sz": "n", "ck": "b", "real": {"bad": bad}}, {"op": "ro", "p": 1}])
+            if state:
+                for pre in (True, False):
+                    hs.append([dict(c) for c in state] + [{"op": "dii", "c": 7, "sz": "n", "pre": pre, "ok": False, "real": {"bad": bad}}])
     for h in hs:
         for c in h:
             seq.decorate(rng, c)
@@ -303,6 +309,43 @@ def c06_sizes(run):
                     elif out == "ok" and (m.obj_size != true_len):
                         run.violation({"kind": "size-boundary", "data": kind}, "stored size %d for %d bytes" % (m.obj_size, true_len), {"kind": kind, "true_size": true_len})
                     os.remove(src)
+        # the verdict is about the bytes the stream DELIVERS, not about the file its .name points to: a gzip stream (name = the
+        # compressed file), and an open handle whose path has since been replaced by a file of another size
+        import gzip
+        import hashlib
+        for kind in ("gzip-stream", "handle-path-replaced"):
+            for true_len in (5000, bsf + 10):
+                for verdict in ("right", "wrong-size", "wrong-checksum"):
+                    k += 1
+                    data = os.urandom(true_len // 2) + b"a" * (true_len - true_len // 2)
+                    src = os.path.join(base, "n%d" % k)
+                    if kind == "gzip-stream":
+                        with gzip.open(src, "wb") as fh:
+                            fh.write(data)
+                        stream = gzip.GzipFile(src, "rb")
+                    else:
+                        with open(src, "wb") as fh:
+                            fh.write(data)
+                        stream = open(src, "rb")
+                        other = src + ".other"
+                        with open(other, "wb") as fh:
+                            fh.write(b"z" * (true_len // 3))
+                        os.replace(other, src)
+                    claimed = true_len + (1 if verdict == "wrong-size" else 0)
+                    digest = hashlib.sha256(data if verdict != "wrong-checksum" else data + b"!").hexdigest()
+                    try:
+                        m = hs.store_object("name-pid-%d" % k, stream, None, digest, "SHA-256", claimed)
+                        out = "ok"
+                    except Exception as e:  # noqa: BLE001
+                        out = exn_name(e)
+                    finally:
+                        stream.close()
+                    run.case("search-size-boundaries", (kind, true_len, verdict), sample={"search": "stream whose .name is a file of another size", "kind": kind,
+                                                                                         "true_size": true_len, "validation": verdict, "outcome": out})
+                    want = {"right": "ok", "wrong-size": "NonMatchingObjSize", "wrong-checksum": "NonMatchingChecksum"}[verdict]
+                    if out != want:
+                        run.violation({"kind": "size-boundary", "data": kind}, "store_object(<%s delivering %d bytes>, checksum %s, expected_object_size=%d) -> %s, expected %s" % (
+                            kind, true_len, "correct" if verdict != "wrong-checksum" else "wrong", claimed, out, want), {"kind": kind, "true_size": true_len, "validation": verdict})
     finally:
         shutil.rmtree(base, ignore_errors=True)
 
